@@ -533,7 +533,89 @@ pub fn run(ctx: &Ctx, rep: &Report) {
         }
         rep.part(&format!("part2:any-finite-reference:{}", k.name()), n.load(Ordering::Relaxed) + n2.load(Ordering::Relaxed), json!({"lat_references": lat_refs.len(), "count_stride": stride}));
     }
+    sequences(ctx, rep);
     finish(rep, thorough);
+}
+
+/// One call of the subject as data: (kind, codes, reference)
+type CallSpec = (Kind, u32, u32, f64, f64);
+
+fn bits_of(r: &Result<Option<Position>, String>) -> Result<Option<(u64, u64)>, String> {
+    r.clone().map(|o| o.map(|p| (p.latitude.to_bits(), p.longitude.to_bits())))
+}
+
+/// Two calls on one thread that differ in exactly ONE argument dimension (parity, airborne/surface, latitude code,
+/// longitude code, reference latitude, reference longitude): the second must give what it gives after unrelated
+/// calls. A decoder that remembers its last call under a key that leaves one dimension out answers the second call
+/// with the first call's result.
+fn seq_pair(a: CallSpec, b: CallSpec, rep: &Report) -> u64 {
+    let flush = || {
+        for i in 0..6u32 {
+            let _ = decode(Kind { surface: i & 1 == 1, odd: i & 2 == 2 }, 30_000 + 17 * i, 90_000 + 5 * i, 48.0 + i as f64 * 0.01, 11.0 - i as f64 * 0.01);
+        }
+    };
+    flush();
+    let alone = bits_of(&decode(b.0, b.1, b.2, b.3, b.4));
+    flush();
+    let _ = decode(a.0, a.1, a.2, a.3, a.4);
+    let r = decode(b.0, b.1, b.2, b.3, b.4);
+    if bits_of(&r) != alone {
+        let dim = if a.0.odd != b.0.odd { "parity" } else if a.0.surface != b.0.surface { "surface" } else if a.1 != b.1 { "lat-code" } else if a.2 != b.2 { "lon-code" } else if a.3.to_bits() != b.3.to_bits() { "lat-ref" } else { "lon-ref" };
+        rep.violation(&format!("sequence:order-dependent:{dim}"), format!("{} codes {}/{} reference ({},{}) decoded right after a call that differs only in {dim} gives {:?}, but after unrelated calls it gives another result", b.0.name(), b.1, b.2, b.3, b.4, r.as_ref().map(|o| o.map(|p| (p.latitude, p.longitude)))), json!({"kind":"sequence","first":{"surface":a.0.surface,"odd":a.0.odd,"y":a.1,"x":a.2,"lat_ref":a.3,"lon_ref":a.4},"second":{"surface":b.0.surface,"odd":b.0.odd,"y":b.1,"x":b.2,"lat_ref":b.3,"lon_ref":b.4}}));
+    }
+    3
+}
+
+fn sequences(ctx: &Ctx, rep: &Report) {
+    // base calls: codes of true positions next to their references, in several bands and both hemispheres, plus zone corners
+    let mut bases: Vec<CallSpec> = Vec::new();
+    let pts: [(f64, f64); 9] = [(48.2, 11.4), (-33.9, 151.2), (0.0004, 0.0003), (71.2, -179.96), (-86.9, 45.0), (10.4704, 3.1), (59.95, -0.02), (35.6, 139.8), (-0.0004, 179.9997)];
+    for (lat, lon) in pts {
+        for surface in [false, true] {
+            for odd in [false, true] {
+                let k = Kind { surface, odd };
+                let span = k.span();
+                let dlat = k.d_lat();
+                let y = ((131072.0 * (lat.rem_euclid(dlat) / dlat) + 0.5).floor() as i64).rem_euclid(1 << 17) as u32;
+                let x = ((131072.0 * (lon.rem_euclid(span / 30.0) / (span / 30.0)) + 0.5).floor() as i64).rem_euclid(1 << 17) as u32;
+                bases.push((k, y, x, lat + 0.2, lon - 0.3));
+            }
+        }
+    }
+    for v in [0u32, 1, 65_536, 131_071] {
+        for k in [Kind { surface: false, odd: false }, Kind { surface: true, odd: true }] {
+            bases.push((k, v, v, 0.1, 0.1));
+            bases.push((k, v, 131_071 - v, -0.1, 179.9));
+        }
+    }
+    let n = AtomicU64::new(0);
+    par_items(ctx.threads, bases.len(), |i| {
+        let b = bases[i];
+        let mut c = 0;
+        let mut vars: Vec<CallSpec> = Vec::new();
+        vars.push((Kind { odd: !b.0.odd, ..b.0 }, b.1, b.2, b.3, b.4));
+        vars.push((Kind { surface: !b.0.surface, ..b.0 }, b.1, b.2, b.3, b.4));
+        for d in [1u32, 2, 64, 4096, 65_536] {
+            vars.push((b.0, (b.1 + d) % 131_072, b.2, b.3, b.4));
+            vars.push((b.0, b.1, (b.2 + d) % 131_072, b.3, b.4));
+        }
+        for d in [1e-9, 0.01, 0.7, 3.1, 6.5, 45.0, -90.0] {
+            vars.push((b.0, b.1, b.2, b.3 + d, b.4));
+            vars.push((b.0, b.1, b.2, b.3, b.4 + d));
+            vars.push((b.0, b.1, b.2, b.3, b.4 + 8.0 * d));
+        }
+        vars.push((b.0, b.1, b.2, -b.3, b.4));
+        vars.push((b.0, b.1, b.2, b.3, -b.4));
+        vars.push((b.0, b.1, b.2, b.3, b.4 + 360.0));
+        for v in vars {
+            c += seq_pair(b, v, rep);
+            c += seq_pair(v, b, rep);
+        }
+        n.fetch_add(c, Ordering::Relaxed);
+        rep.eval(take_calls());
+    });
+    rep.part("two-call sequences: ordered pairs of calls that differ in exactly one argument dimension", n.load(Ordering::Relaxed) / 3, json!({"base_calls": bases.len()}));
+    rep.outcome("sequence:pairs", n.load(Ordering::Relaxed) / 3);
 }
 
 fn finish(rep: &Report, thorough: bool) {
@@ -571,6 +653,10 @@ pub fn replay(w: &Value, rep: &Report) {
             if let Some((cl, what)) = check_any_ref(k, w["y"].as_u64().unwrap() as u32, w["x"].as_u64().unwrap() as u32, w["lat_ref"].as_f64().unwrap_or(f64::MAX), w["lon_ref"].as_f64().unwrap_or(f64::MAX)) {
                 rep.violation(&cl, what, w.clone());
             }
+        }
+        Some("sequence") => {
+            let spec = |v: &Value| -> CallSpec { (Kind { surface: v["surface"].as_bool().unwrap_or(false), odd: v["odd"].as_bool().unwrap_or(false) }, v["y"].as_u64().unwrap_or(0) as u32, v["x"].as_u64().unwrap_or(0) as u32, v["lat_ref"].as_f64().unwrap_or(0.0), v["lon_ref"].as_f64().unwrap_or(0.0)) };
+            seq_pair(spec(&w["first"]), spec(&w["second"]), rep);
         }
         _ => panic!("bad witness"),
     }
